@@ -1,0 +1,20 @@
+//go:build verif
+
+// Contracts for the deductive verifier in /verif (govc). Comment-only: this file declares nothing and is
+// compiled only under the build tag `verif`. Syntax: see /verif/DESIGN.md §2.5.
+
+package fsm
+
+//@ file commands_ce.go
+
+// ---- C10: the Connect CA operations of the FSM. A conditional write reports `true` exactly when something was
+// committed. For the composite operation (roots and configuration in one request) this means all-or-nothing:
+// unless the operation reports `true`, nothing may have been committed.
+//@ func ApplyConnectCAOperationFromRequest
+//@ props C10
+//@ results res
+//@ requires state != nil && req != nil && req.Config != nil && req.ProviderState != nil
+//@ requires[roots-present] forall j int :: 0 <= j && j < len(req.Roots) ==> req.Roots[j] != nil
+//@ ensures[roots-cas-honest] req.Op == structs.CAOpSetRoots ==> commits() == ite(is[bool](res) && as[bool](res), old(commits()) + 1, old(commits()))
+//@ ensures[config-cas-honest] req.Op == structs.CAOpSetConfig && old(req.Config.ModifyIndex) != 0 ==> commits() == ite(is[bool](res) && as[bool](res), old(commits()) + 1, old(commits()))
+//@ ensures[composite-all-or-nothing] req.Op == structs.CAOpSetRootsAndConfig && !(is[bool](res) && as[bool](res)) ==> commits() == old(commits())
